@@ -47,6 +47,9 @@ pub struct Ctl {
     visits: u64,
     pub spin: bool,
     pub notes: Vec<String>,
+    /// rounds of a "long" pre-emption (0 = only single-round yields are offered)
+    pub long_yield: usize,
+    forced: std::collections::HashMap<u64, usize>,
 }
 
 pub const MAX_VISITS: u64 = 2_000_000;
@@ -121,7 +124,40 @@ pub fn note(s: String) {
     });
 }
 
+fn task_key() -> u64 {
+    match tokio::task::try_id() {
+        Some(id) => {
+            use std::hash::{Hash, Hasher};
+            let mut h = std::collections::hash_map::DefaultHasher::new();
+            id.hash(&mut h);
+            h.finish() | 1
+        }
+        None => 0,
+    }
+}
+
+/// How many rounds a long pending / pre-emption lasts (for transport menus).
+pub fn long_rounds() -> usize {
+    CTL.with(|c| c.borrow().as_ref().map(|c| c.long_yield).unwrap_or(0))
+}
+
 fn sched_choose(name: &'static str) -> bool {
+    // a task inside a long pre-emption keeps yielding without a new choice
+    let tk = task_key();
+    let forced = CTL.with(|c| {
+        let mut g = c.borrow_mut();
+        if let Some(ctl) = g.as_mut()
+            && let Some(left) = ctl.forced.get_mut(&tk)
+            && *left > 0
+        {
+            *left -= 1;
+            return true;
+        }
+        false
+    });
+    if forced {
+        return true;
+    }
     let enabled = CTL.with(|c| {
         let g = c.borrow();
         match g.as_ref() {
@@ -135,7 +171,19 @@ fn sched_choose(name: &'static str) -> bool {
     if !enabled {
         return false;
     }
-    choose(name, 2) == 1
+    let long = long_rounds();
+    match choose(name, if long > 0 { 3 } else { 2 }) {
+        0 => false,
+        1 => true,
+        _ => {
+            CTL.with(|c| {
+                if let Some(ctl) = c.borrow_mut().as_mut() {
+                    ctl.forced.insert(tk, long - 1);
+                }
+            });
+            true
+        }
+    }
 }
 
 struct HookImpl;
@@ -258,6 +306,8 @@ pub struct ExecCfg {
     pub horizon: Duration,
     /// real-time watchdog for one execution
     pub watchdog: Duration,
+    /// offer "stay pre-empted / pending for this many rounds" as one deviation (0 = off)
+    pub long_yield: usize,
 }
 
 impl Default for ExecCfg {
@@ -267,6 +317,7 @@ impl Default for ExecCfg {
             draw: DrawPolicy::Min,
             horizon: Duration::from_secs(6 * 3600),
             watchdog: Duration::from_secs(60),
+            long_yield: 0,
         }
     }
 }
@@ -294,6 +345,8 @@ pub fn run_exec(sc: &ScenarioFn, cfg: &ExecCfg, prefix: &[u16], expect_hash: u64
                     visits: 0,
                     spin: false,
                     notes: Vec::new(),
+                    long_yield: cfg2.long_yield,
+                    forced: std::collections::HashMap::new(),
                 })
             });
             let old = anytls_rs::verif::install(Some(Rc::new(HookImpl)));
